@@ -131,6 +131,10 @@ def property_checks(p):
             # the same on the covariance the screen itself holds (binary32 values; equal separations give equal entries, so
             # translation invariance is exact and only the float64 factorisation errors remain)
             So = numpy.asarray(s.cov_mat_zz, dtype=float)
+            # ... and that covariance is the von Karman covariance of the screen's own geometry (true pixel separations, in
+            # whatever length unit), so that the stationary law of the rows is the one the property names
+            A(("the stencil covariance the recursion preserves is the von Karman covariance at the true separations%s" % tag,
+               float(numpy.abs(So - Czz).max() / Czz.max()), 2e-6))
             ro = numpy.abs(Fm @ So @ Fm.T + Gm @ Gm.T - So).max() / So.max()
             A(("the screen's own stencil covariance is a fixed point of the row recursion%s" % tag, float(ro), 1e-12 * numpy.linalg.cond(So) + 1e-9))
             rho = float(numpy.max(numpy.abs(numpy.linalg.eigvals(Fm))))
